@@ -1,4 +1,5 @@
 import Bclv.Model.Vm
+import Bclv.Model.Utf8
 /-!
 # The reflection binder (`reflect.go`: `copyBlocks`, `copyBlock`, `setField`)
 
@@ -270,7 +271,15 @@ def overlaps : List Nat → List Nat → Bool
   | _, [] => true
   | a :: as, b :: bs => a == b && overlaps as bs
 
-def chars (b : Bytes) : List Char := (String.fromUTF8? ⟨b.toArray⟩).map String.toList |>.getD (b.map (fun x => Char.ofNat x.toNat))
+/-- The runes of a Go string (`for _, r := range s`): invalid bytes decode to U+FFFD. -/
+def charsFuel : Nat → Bytes → List Char
+  | 0, _ => []
+  | _, [] => []
+  | f+1, b =>
+    let (r, w) := decodeRune b
+    Char.ofNat r.toNat :: charsFuel f (b.drop (max w 1))
+
+def chars (b : Bytes) : List Char := charsFuel b.length b
 
 /-- tag → field position, last one wins (`tagged[tagv] = i`). -/
 def taggedOf : TFields → Nat → List (List Char × Nat) → List (List Char × Nat)
